@@ -5,6 +5,7 @@ import (
 	"fmt"
 	"os"
 	"reflect"
+	"sort"
 	"time"
 
 	sgbucket "github.com/couchbase/sg-bucket"
@@ -27,7 +28,7 @@ type KVWorld struct {
 	H2    *rosmar.Bucket
 	A2    *rosmar.Collection
 	Feeds []*FeedRec // [0]=A via h0 (collection API) [1]=A via h1 (bucket API) [2]=B [3]=b2.A
-	saved int
+	ExtraBackfills bool
 }
 
 func coll(b *rosmar.Bucket, name sgbucket.DataStoreName) *rosmar.Collection {
@@ -116,6 +117,7 @@ type KVObs struct {
 	Events    map[string][]EventObs
 	ReadsPure bool
 	Backfill  []EventObs // Dump feed of A from CAS 0 (markers included)
+	BackfillFrom map[uint64][]EventObs // extra Dump feeds from other start CAS values (C09 runs only)
 	BackfillErr string
 	FeedMapNil []bool
 	FeedCounts map[string]int
@@ -182,6 +184,30 @@ func (w *KVWorld) Observe() KVObs {
 			o.K.Backfill = &bf[i]
 		case "j":
 			o.J.Backfill = &bf[i]
+		}
+	}
+	if w.ExtraBackfills {
+		// start CAS values: the oldest stored CAS, the newest, one past the newest, and the CAS after the oldest
+		var cs []uint64
+		for _, r := range d.Docs {
+			if r.Collection == "sc.A" {
+				cs = append(cs, r.Cas)
+			}
+		}
+		if len(cs) > 0 {
+			sort.Slice(cs, func(i, j int) bool { return cs[i] < cs[j] })
+			starts := map[uint64]bool{cs[0]: true, cs[0] + 1: true, cs[len(cs)-1]: true, cs[len(cs)-1] + 1: true}
+			o.BackfillFrom = map[uint64][]EventObs{}
+			for s := range starts {
+				if s <= 1 {
+					continue // 1 is the FeedResume marker
+				}
+				evs, err := DumpFeed(a0, s, false)
+				if err != nil {
+					o.BackfillErr = err.Error()
+				}
+				o.BackfillFrom[s] = evs
+			}
 		}
 	}
 	vrt.Quiesce()
